@@ -77,8 +77,16 @@ where
                     let (mut io, mut buf) = idle.take().expect("Inconsistent state");
 
                     // First try decode from the buffer
-                    let inner = buf.inner();
-                    if let Some(frame) = this.framer.extract(inner)? {
+                    let frame = match this.framer.extract(buf.inner()) {
+                        Ok(frame) => frame,
+                        Err(e) => {
+                            // Put the state back first: the stream may be polled again after an error
+                            this.read_state.inner = StateInner::Idle(Some((io, buf)));
+                            return Poll::Ready(Some(Err(e.into())));
+                        }
+                    };
+                    if let Some(frame) = frame {
+                        let inner = buf.inner();
                         let (begin, end) = (inner.begin(), inner.end());
                         let slice = frame.slice(buf.take_inner()).flatten(); // focus on only the payload
                         let decoded = this.codec.decode(&slice);
